@@ -25,44 +25,52 @@ theorem header_shape_short (f : Frame) (h : f.payload.length ≤ 255) :
     encodeCodec f =
       [(if f.more then 1 else 0) ||| (if f.command then 4 else 0), UInt8.ofNat f.payload.length]
         ++ f.payload := by
-  sorry
+  have h' : f.payload.length ≤ Gen.codecEncodeShortMax := by
+    simp only [Gen.codecEncodeShortMax]; exact h
+  simp only [encodeCodec, header, if_pos h', flagBits, Gen.ZMTP_FLAG_MORE, Gen.ZMTP_FLAG_COMMAND]
 
 /-- ≥ 256 bytes: 9-byte header `[flags | LONG(2), big-endian 64-bit length]`. -/
 theorem header_shape_long (f : Frame) (h : 255 < f.payload.length) :
     encodeCodec f =
       (((if f.more then 1 else 0) ||| (if f.command then 4 else 0) ||| 2) :: be64 f.payload.length)
         ++ f.payload := by
-  sorry
+  have h' : ¬ f.payload.length ≤ Gen.codecEncodeShortMax := by
+    simp only [Gen.codecEncodeShortMax]; omega
+  simp only [encodeCodec, header, if_neg h', flagBits, Gen.ZMTP_FLAG_MORE, Gen.ZMTP_FLAG_COMMAND,
+    Gen.ZMTP_FLAG_LONG]
 
 /-- the length field is a faithful big-endian 64-bit integer -/
 theorem ofBe_be64 (n : Nat) (h : n < two64) : ofBe (be64 n) = n := by
-  sorry
+  exact ofBe_be64' n h
 
 theorem be64_length (n : Nat) : (be64 n).length = 8 := by
-  sorry
+  rfl
 
 -- all encoders produce the same bytes ------------------------------------------------------------
 
 theorem contig_eq_codec (f : Frame) : contigFrame f = encodeCodec f := by
-  sorry
+  simp only [contigFrame, encodeCodec, Gen.contigShortMax, Gen.codecEncodeShortMax, Gen.contigMore,
+    Gen.contigCommand, Gen.contigLong, Gen.ZMTP_FLAG_MORE, Gen.ZMTP_FLAG_COMMAND, Gen.ZMTP_FLAG_LONG]
 
 theorem hdronly_eq_codec (f : Frame) : encodeHeaderOnly f ++ f.payload = encodeCodec f := by
-  sorry
+  simp only [encodeHeaderOnly, encodeCodec, Gen.hdrOnlyShortMax, Gen.codecEncodeShortMax]
 
 theorem split_eq_codec (f : Frame) :
     (writeMsgSplit f).1 ++ ((writeMsgSplit f).2.getD []) = encodeCodec f
     ∧ (writeMsgSplit f).2 = some f.payload := by
-  sorry
+  refine ⟨?_, rfl⟩
+  exact split_eq_codec' f
 
 theorem frameContiguous_eq (batch : List Message) :
     frameContiguous batch = (batch.flatten.map encodeCodec).flatten := by
-  sorry
+  have h : contigFrame = encodeCodec := funext contig_eq_codec
+  rw [frameContiguous, h]
 
 /-- the scatter/gather encoder emits the same byte stream as the contiguous one, for every batch
 (COMMAND frames included) -/
 theorem frameVectored_eq (batch : List Message) :
     (frameVectored batch).flatten = frameContiguous batch := by
-  sorry
+  exact frameVectored_flatten batch
 
 -- decode ∘ encode = id, for every decoder --------------------------------------------------------
 
@@ -70,34 +78,44 @@ theorem frameVectored_eq (batch : List Message) :
 theorem decodeBuffer_encode (max : Int) (f : Frame) (rest : List UInt8)
     (hok : FrameOk f) (hmax : Admits max f) :
     decodeBuffer max (encodeCodec f ++ rest) = .frame f rest := by
-  sorry
+  exact decodeBuffer_encode' max f rest hok hmax
 
 theorem decodeSlice_encode (max : Int) (f : Frame) (rest : List UInt8)
     (hok : f.payload.length + 9 < two64) (hmax : Admits max f) :
     decodeSlice max (encodeCodec f ++ rest) = .frame f rest := by
-  sorry
+  simp only [decodeSlice, Gen.sliceMinLen, Gen.sliceLongHdr, Gen.sliceShortHdr]
+  exact decodeSliceLike_encode' max f rest hok hmax
 
 theorem decodeBytes_encode (max : Int) (f : Frame) (rest : List UInt8)
     (hok : f.payload.length + 9 < two64) (hmax : Admits max f) :
     decodeBytes max (encodeCodec f ++ rest) = .frame f rest := by
-  sorry
+  simp only [decodeBytes, Gen.bytesMinLen, Gen.bytesLongHdr, Gen.bytesShortHdr]
+  exact decodeSliceLike_encode' max f rest hok hmax
 
 /-- the length peek announces exactly the encoded size, from the header alone -/
 theorem peek_encode (max : Int) (f : Frame) (rest : List UInt8)
     (hok : f.payload.length + 9 < two64) (hmax : Admits max f) :
     peekFrameLen max (encodeCodec f ++ rest) = .total (encodeCodec f).length := by
-  sorry
+  exact peek_encode' max f rest hok hmax
 
 /-- whole streams: any frame sequence written by any encoder decodes to itself, nothing left over -/
 theorem decodeAll_encode (max : Int) (fs : List Frame)
     (hok : ∀ f ∈ fs, FrameOk f) (hmax : ∀ f ∈ fs, Admits max f) :
     decodeAll max (fs.map encodeCodec).flatten = (fs, .more, []) := by
-  sorry
+  induction fs with
+  | nil => exact decodeAll_needMore rfl
+  | cons f fs ih =>
+    have h1 := decodeBuffer_encode max f (fs.map encodeCodec).flatten
+      (hok f (List.mem_cons_self ..)) (hmax f (List.mem_cons_self ..))
+    have h2 := ih (fun g hg => hok g (List.mem_cons_of_mem _ hg))
+      (fun g hg => hmax g (List.mem_cons_of_mem _ hg))
+    simp only [List.map_cons, List.flatten_cons]
+    rw [decodeAll_frame h1, h2]
 
 /-- one `decode` call of the tokio codec on an encoded frame (within the codec's 64 MiB cap) -/
 theorem codec_encode (f : Frame) (rest : List UInt8) (hcap : f.payload.length ≤ Gen.CODEC_MAX_FRAME_SIZE) :
     codecDecodeOne .readHeader (encodeCodec f ++ rest) = (some f, false, .readHeader, rest) := by
-  sorry
+  exact codec_encode' f rest hcap
 
 -- independence of the segmentation -----------------------------------------------------------------
 
@@ -109,32 +127,38 @@ theorem cut_independent (max : Int) (chunks : List (List UInt8)) :
     ∧ (feedChunks max {} chunks).1.closed = (feed max {} chunks.flatten).1.closed
     ∧ ((feedChunks max {} chunks).1.closed = false →
         (feedChunks max {} chunks).1.acc = (feed max {} chunks.flatten).1.acc) := by
-  sorry
+  exact feedChunks_spec max chunks {} rfl rfl
 
 /-- What is delivered from a prefix of a stream is a prefix of what is delivered from the whole stream:
 no read boundary (or truncation) ever produces a frame that the full stream would not. -/
 theorem decode_prefix_monotone (max : Int) (a b : List UInt8) :
     (decodeAll max a).1 <+: (decodeAll max (a ++ b)).1 := by
-  sorry
+  obtain ⟨hm, he, hp, -⟩ := decodeAll_append max a b
+  cases hst : (decodeAll max a).2.1 with
+  | more => rw [hm hst]; exact List.prefix_append _ _
+  | err => rw [he hst]; exact List.prefix_refl _
+  | panic => exact absurd hst hp
 
 /-- same for the tokio codec, including a primed prefix: the frames depend only on `pfx ++ bytes` -/
 theorem codec_cut_independent (pfx : List UInt8) (chunks : List (List UInt8)) (hne : chunks ≠ []) :
     (codecFeedChunks { pfx := pfx } chunks).2 = (codecFeed {} (pfx ++ chunks.flatten)).2 := by
-  sorry
+  rw [codecFeedChunks_spec chunks { pfx := pfx } hne rfl trivial, codecFeed_eq {} _ rfl]
+  simp only [List.append_nil, List.nil_append]
 
 /-- round trip through any segmentation (corollary used by C01/C04) -/
 theorem roundtrip_any_cuts (max : Int) (fs : List Frame) (chunks : List (List UInt8))
     (hok : ∀ f ∈ fs, FrameOk f) (hmax : ∀ f ∈ fs, Admits max f)
     (hc : chunks.flatten = (fs.map encodeCodec).flatten) :
     (feedChunks max {} chunks).2 = fs := by
-  sorry
+  rw [(cut_independent max chunks).1, hc]
+  simp only [feed, Bool.false_eq_true, if_false, List.nil_append, decodeAll_encode max fs hok hmax]
 
 -- non-vacuity ---------------------------------------------------------------------------------------
 
 example : FrameOk { payload := [1, 2, 3], more := true, command := false }
     ∧ Admits 3 { payload := [1, 2, 3], more := true, command := false } := by
   constructor
-  · decide
+  · unfold FrameOk; decide
   · right; decide
 
 end Rzmq.C03
